@@ -1,3 +1,4 @@
 import VrpModel.Num
 import VrpModel.Qubo
 import VrpModel.Graph
+import VrpModel.Sampler
